@@ -639,7 +639,10 @@ pub fn run(args: &Args) {
     if args.shard().0 == 0 && !cfg!(miri) && !args.flag("nothresholds") {
         let r0 = guarded(|| {
             for t in [1usize << 12, 1 << 16, 1 << 18, (1 << 18) + 64, 1 << 20] {
-                for (start, grow) in [(t - 70, 140usize), (100, 2 * t), (t - 1, 1), (t, 1), (t + 70, 0), (3, t - 3)] {
+                for (vi, (start, grow)) in [(t - 70, 140usize), (100, 2 * t), (t - 1, 1), (t, 1), (t + 70, 0), (3, t - 3), (t - 70, 140), (100, 2 * t)].into_iter().enumerate() {
+                    // the last two repeat the first two WITHOUT replacing the object by its clone
+                    // before the harvest (a clone may rebuild what the original lost)
+                    let with_clone = vi < 6;
                     let mut m = Model::new(start, 1);
                     let mut b = Arc::new(AtomicBitmap::new(start, NonZeroUsize::new(1).unwrap()));
                     let marks = [0usize, 1, 63, 64, start / 2, start.saturating_sub(2), start.saturating_sub(1)];
@@ -654,6 +657,9 @@ pub fn run(args: &Args) {
                     // marks in the grown part too, then the harvest must return exactly the model
                     let newp = start + grow;
                     for op in [Op::SetBit(newp.saturating_sub(1)), Op::MarkDirty(start.saturating_sub(3), 9), Op::CloneSwap, Op::GetAndReset, Op::SetBit(5), Op::SetBit(newp / 2), Op::GetAndReset, Op::GetAndReset] {
+                        if !with_clone && matches!(op, Op::CloneSwap) {
+                            continue;
+                        }
                         if !apply(&mut b, &mut m, &op) {
                             return;
                         }
@@ -661,7 +667,7 @@ pub fn run(args: &Args) {
                     if !readout(&b, &m, "threshold") {
                         return;
                     }
-                    out::key(&format!("threshold|2^{}{}|start{}|grow{}", usize::BITS - 1 - t.leading_zeros(), if t.is_power_of_two() { "" } else { "+" }, if start < t { "<t" } else { ">=t" }, if start + grow > t { ">t" } else { "<=t" }), true);
+                    out::key(&format!("threshold|2^{}{}|start{}|grow{}{}", usize::BITS - 1 - t.leading_zeros(), if t.is_power_of_two() { "" } else { "+" }, if start < t { "<t" } else { ">=t" }, if start + grow > t { ">t" } else { "<=t" }, if with_clone { "" } else { "|no-clone" }), true);
                     out::eval(1);
                 }
             }
